@@ -1549,6 +1549,14 @@ impl<T: Storage> Raft<T> {
             return;
         }
 
+        if !self.promotable {
+            warn!(
+                self.logger,
+                "not a voter of the current configuration, can not campaign";
+            );
+            return;
+        }
+
         // Scan all unapplied committed entries to find a config change.
         // Paginate the scan, to avoid a potentially unlimited memory spike.
         //
